@@ -348,7 +348,8 @@ class Parser:
             self.accept(';')
             return ('return', e)
         if v == 'if':
-            e = self.parse_expr()
+            # an `if` in statement position ends at its closing brace (`if c { return x; } *self % *other` is two items)
+            e = self.parse_expr(len(self.PREC))
             if self.accept(';'):
                 return ('expr', e)
             return ('expr_nosemi', e)
